@@ -179,7 +179,7 @@ impl <T: ArrayElement> ArrayAxis<T> for Array<T> {
         let new_shape = array.get_shape()?.update_at(self.ndim()? - 1, partial_len);
         let partial = partial.reshape(&new_shape);
         if axis == 0 { partial.rollaxis((self.ndim()? - 1).to_isize(), None) }
-        else { partial.moveaxis(vec![axis.to_isize()], vec![(self.ndim()? - 1).to_isize()]) }
+        else { partial.moveaxis(vec![(self.ndim()? - 1).to_isize()], vec![axis.to_isize()]) }
     }
 
     fn transpose(&self, axes: Option<Vec<isize>>) -> Result<Self, ArrayError> {
